@@ -13,6 +13,6 @@ FUNCTIONS = ENGINE_FUNCS + ["multidecoder.node.Node.flatten", "multidecoder.xor_
 EXCLUDE_CLAUSES = CORE_ONLY
 SELECT = [r"/safe/", r"/dec/", r"/pre/", r"/callsite/", r"/registry-call/", r"/raises/"]
 TRUSTED = [NOT_UNDER_CONTRACT]
-BOUNDED = [bounded_scan_total, bounded_decoder_raises]
+BOUNDED = [bounded_scan_total, bounded_decoder_raises, bounded_known_limits]
 
 DEMOTED = {r"find_cmd_strings/safe/IndexError@L\d+:list index": "split[0] needs `the de-escaped match contains a non-blank byte` (a fact about caret_from over L(CMD_RE)) which z3 cannot derive; covered by the run-time stand-in"}
